@@ -85,6 +85,30 @@ class Model:
 # ------------------------------------------------------------------------------------------------
 
 
+# Arrays the "user" created, registered with their SHA-256 at the moment of creation - i.e. before any
+# OpenAeroStruct function other than the mesh generator that produced them has seen them. A digest taken
+# only after the model is built would miss an in-place edit made *during* set-up.
+_EARLY = None
+
+
+def _early(label, arr):
+    if _EARLY is not None and isinstance(arr, np.ndarray):
+        import hashlib
+
+        _EARLY.append((label, arr, hashlib.sha256(np.ascontiguousarray(arr).tobytes()).hexdigest()[:16]))
+    return arr
+
+
+def early_changed(model):
+    """Label of the first user array whose bytes differ from what they were at creation, else None."""
+    import hashlib
+
+    for label, arr, dig in getattr(model, "early", []):
+        if hashlib.sha256(np.ascontiguousarray(arr).tobytes()).hexdigest()[:16] != dig:
+            return label
+    return None
+
+
 # Sharing of user-owned objects between tenants of one program (C20): None, or
 # {"level": "mesh" | "surface", "reg": {}}. With "mesh" the *same* mesh ndarray (and mesh dict) is handed to
 # every builder asking for the same mesh, as the documented multipoint / drag-polar scripts do; with
@@ -106,6 +130,7 @@ def _gen_mesh(wing_type, nx, ny, symmetry, **kw):
         mesh, twist_cp = out
     else:
         mesh, twist_cp = out, None
+    _early("mesh:%s:%dx%d" % (wing_type, nx, ny), mesh)
     if SHARE is not None:
         SHARE["reg"][key] = (md, mesh, twist_cp)
     return md, mesh, twist_cp
@@ -356,6 +381,7 @@ def z3(spec):
     if spec.get("right"):
         mesh = mesh[:, ::-1, :].copy()
         mesh[:, :, 1] *= -1.0
+        _early("mesh:right", mesh)
     s = _aero_surface("wing", mesh, True, twist_cp, viscous=True, groundplane=True, sweep=0.0)
     surfaces = [s]
     extra_user = []
@@ -500,6 +526,8 @@ def _z5_user_meshes(spec):
         return mesh
 
     m0, m1, m2 = rect(-1.0, 0.0, 0.3), rect(-2.0, -1.0, 0.0), rect(-1.0, 0.0, 0.0)
+    for lab, arr in (("meshes/0", m0), ("meshes/1", m1), ("meshes/2", m2)):
+        _early(lab, arr)
     surface = {
         "name": "surface", "is_multi_section": True, "num_sections": 3, "sec_name": ["sec0", "sec1", "sec2"],
         "symmetry": True, "S_ref_type": "wetted", "root_section": 2,
@@ -559,7 +587,7 @@ def z6(spec):
     nyh = mesh.shape[1]
     prob = om.Problem(reports=False)
     ivc = om.IndepVarComp()
-    ivc.add_output("loads", val=_loads(nyh), units="N")
+    ivc.add_output("loads", val=_loads(nyh, 2.0e5), units="N")
     ivc.add_output("load_factor", val=1.0)
     prob.model.add_subsystem("prob_vars", ivc, promotes=["*"])
     prob.model.add_subsystem("wing", SpatialBeamAlone(surface=s))
@@ -573,7 +601,7 @@ def z6(spec):
     )
     _setup(prob, spec, driver)
     inputs = [
-        Inp("loads", _loads(nyh), "rel", -0.5, 0.5),
+        Inp("loads", _loads(nyh, 2.0e5), "rel", -0.5, 0.5),
     ] + ([Inp("load_factor", 1.0, "uni", 0.5, 2.5, special=[1.0])] if s["struct_weight_relief"] else []) + [
         # the very thin values are admissible (an optimiser's infeasible iterates): stresses far beyond the
         # allowable, where the KS aggregate has to stay finite
@@ -1253,9 +1281,16 @@ def z0(spec):
 
 
 def build(spec):
+    global _EARLY
     if spec["zoo"] not in ZOO:
         raise HarnessError("unknown zoo entry %r" % (spec["zoo"],))
-    return ZOO[spec["zoo"]](dict(spec))
+    _EARLY = []
+    try:
+        model = ZOO[spec["zoo"]](dict(spec))
+        model.early = _EARLY
+    finally:
+        _EARLY = None
+    return model
 
 
 def variants():
